@@ -115,6 +115,59 @@ def _stmt_lists(fn):
             yield n.body
 
 
+def _inside_try_body(fn, stmt):
+    """is stmt (transitively) inside the body of a try statement of fn that has handlers (so that code of fn runs after an exception raised at stmt)?"""
+    def find(body, in_try):
+        for st in body:
+            if st is stmt:
+                return in_try
+            if isinstance(st, ast.Try):
+                r = find(st.body, in_try or bool(st.handlers))
+                if r is not None:
+                    return r
+                for part in [h.body for h in st.handlers] + [st.orelse, st.finalbody]:
+                    r = find(part, in_try)
+                    if r is not None:
+                        return r
+            else:
+                for field in ("body", "orelse", "finalbody"):
+                    sub = getattr(st, field, None)
+                    if isinstance(sub, list) and sub and isinstance(sub[0], ast.stmt):
+                        r = find(sub, in_try)
+                        if r is not None:
+                            return r
+        return None
+    return bool(find(fn.body, False))
+
+
+def _can_raise_after_store(body, name):
+    """can something raise after `name` was (re)bound in this helper body? (a store inside a loop, or a call / subscript / attribute access in a later statement)"""
+    for st in body:
+        for loop in [x for x in ast.walk(st) if isinstance(x, (ast.For, ast.While))]:
+            if any(isinstance(n, ast.Name) and n.id == name and isinstance(n.ctx, ast.Store) for n in ast.walk(loop)):
+                return True
+    flat = []
+
+    def walk(stmts):
+        for st in stmts:
+            flat.append(st)
+            for field in ("body", "orelse", "finalbody"):
+                sub = getattr(st, field, None)
+                if isinstance(sub, list) and sub and isinstance(sub[0], ast.stmt):
+                    walk(sub)
+            for h in getattr(st, "handlers", []):
+                walk(h.body)
+    walk(body)
+    seen_store = False
+    for st in flat:
+        own = [n for n in ast.iter_child_nodes(st) if not isinstance(n, ast.stmt)]
+        if seen_store and any(isinstance(x, (ast.Call, ast.Subscript)) for n in own for x in ast.walk(n)):
+            return True
+        if any(isinstance(x, ast.Name) and x.id == name and isinstance(x.ctx, ast.Store) for n in own for x in ast.walk(n)):
+            seen_store = True
+    return False
+
+
 def _dead_after(fn, stmt, name):
     """no read of `name` can follow `stmt` inside fn: stmt is in no loop, and no statement after it (in its own list or in an enclosing one) mentions the name"""
     def find(body, trail):
@@ -184,7 +237,8 @@ def inline_new_helpers(modules):
                     return sum(pm[self.idx].get(name, 0) for pm in per_module.values())
             name_refs, attr_refs = _Refs(0), _Refs(1)
             for qn, helper, owner_body, cls in fns:
-                if qn in KNOWN_FUNCTIONS or helper.decorator_list:
+                is_static = len(helper.decorator_list) == 1 and isinstance(helper.decorator_list[0], ast.Name) and helper.decorator_list[0].id == "staticmethod" and cls is not None
+                if qn in KNOWN_FUNCTIONS or (helper.decorator_list and not is_static):
                     continue
                 if helper.name.startswith("__") and helper.name.endswith("__"):
                     continue
@@ -192,10 +246,12 @@ def inline_new_helpers(modules):
                 if params is None:
                     continue
                 hbody = _body_without_doc(helper)
-                if not hbody or any(isinstance(x, _BANNED_IN_HELPER) and x is not helper for st in hbody for x in ast.walk(st)) or not _returns_only_last(hbody):
+                if not hbody or any(isinstance(x, _BANNED_IN_HELPER) and x is not helper for st in hbody for x in ast.walk(st)):
                     continue
+                # a helper that returns from several places can only stand where a `return helper(..)` stood (its returns then are the caller's returns)
+                tail_only = not _returns_only_last(hbody)
                 is_method = cls is not None
-                if is_method and not params:
+                if is_method and not params and not is_static:
                     continue
                 # the single call site
                 site = None
@@ -225,7 +281,8 @@ def inline_new_helpers(modules):
                                 continue
                             if is_method:
                                 recv_ok = isinstance(call.func, ast.Attribute) and call.func.attr == helper.name and isinstance(call.func.value, ast.Name) \
-                                    and caller.args.args and call.func.value.id == caller.args.args[0].arg and not caller.decorator_list
+                                    and ((caller.args.args and call.func.value.id == caller.args.args[0].arg and not caller.decorator_list) or
+                                         (is_static and call.func.value.id == cls.name))
                                 if not recv_ok:
                                     continue
                             else:
@@ -237,11 +294,13 @@ def inline_new_helpers(modules):
                 # round; the definition goes with the last one)
                 if len(sites) != nrefs or (nrefs > 1 and sum(1 for st_ in hbody for _ in ast.walk(st_)) > 400):
                     continue
+                if tail_only and not all(isinstance(x[4], ast.Return) for x in sites):
+                    continue
                 site = sites[0]
                 q2, caller, body, i, st, call = site
                 if any(isinstance(a, ast.Starred) for a in call.args) or any(k.arg is None for k in call.keywords):
                     continue
-                formal = params[1:] if is_method else params
+                formal = params[1:] if (is_method and not is_static) else params
                 actual = {}
                 if len(call.args) > len(formal):
                     continue
@@ -256,7 +315,7 @@ def inline_new_helpers(modules):
                     continue
                 new_body = copy.deepcopy(hbody)
                 ret = None
-                if new_body and isinstance(new_body[-1], ast.Return):
+                if not tail_only and new_body and isinstance(new_body[-1], ast.Return):
                     ret = new_body.pop().value
                 hstores = _names(new_body, ast.Store)
                 caller_names = _names([caller]) - {helper.name}
@@ -271,7 +330,7 @@ def inline_new_helpers(modules):
                         nm = "%s__%s%d" % (base, helper.name.strip("_"), k)
                     taken.add(nm)
                     return nm
-                if is_method:
+                if is_method and not is_static:
                     mapping[params[0]] = call.func.value.id
                 # targets the result is assigned to (plain names), by position
                 targets = []
@@ -286,14 +345,17 @@ def inline_new_helpers(modules):
                     a_ = actual[p_]
                     if isinstance(a_, ast.Name) and p_ not in hstores:
                         mapping[p_] = a_.id                # read-only parameter bound to a variable: the variable itself
-                    elif isinstance(a_, ast.Name) and p_ in hstores and len(targets) == len(ret_names) and any(r == p_ and t == a_.id for r, t in zip(ret_names, targets)):
-                        mapping[p_] = a_.id                # x = helper(x): the in-out variable itself
+                    elif isinstance(a_, ast.Name) and p_ in hstores and len(targets) == len(ret_names) and any(r == p_ and t == a_.id for r, t in zip(ret_names, targets)) \
+                            and not (_inside_try_body(caller, st) and _can_raise_after_store(new_body, p_)):
+                        # x = helper(x): the in-out variable itself - unless a handler of the caller can see it afterwards: when the helper raises half-way the caller's
+                        # x keeps its OLD value (the assignment never happens), which updating x in place would hide
+                        mapping[p_] = a_.id
                     elif isinstance(a_, ast.Constant) and p_ not in hstores:
                         mapping[p_] = a_
                     elif p_ not in hstores and _pure_chain(a_) and _chain_root(a_) not in hstores and _chain_root(a_) not in targets and \
                             not (_chain_attrs(a_) & {x.attr for s_ in new_body for x in ast.walk(s_) if isinstance(x, ast.Attribute) and isinstance(x.ctx, (ast.Store, ast.Del))}):
                         mapping[p_] = a_                   # helper(self.busy): a read-only parameter bound to an attribute nobody re-binds meanwhile is that attribute
-                    elif isinstance(a_, ast.Name) and p_ in hstores and _dead_after(caller, st, a_.id) and list(arg_names.values()).count(a_.id) == 1:
+                    elif isinstance(a_, ast.Name) and p_ in hstores and _dead_after(caller, st, a_.id) and list(arg_names.values()).count(a_.id) == 1 and not (_inside_try_body(caller, st) and _can_raise_after_store(new_body, p_)):
                         mapping[p_] = a_.id                # the helper reassigns its parameter, and the caller never looks at that variable again
                     else:
                         nm = fresh(p_)
@@ -324,6 +386,8 @@ def inline_new_helpers(modules):
                     tail.append(ast.copy_location(ast.Return(value=ret), st))
                 elif ret is not None and not isinstance(ret, (ast.Name, ast.Constant, ast.Tuple)):
                     tail.append(ast.copy_location(ast.Expr(value=ret), st))
+                if tail_only:
+                    tail = [] if isinstance(new_body[-1], (ast.Return, ast.Raise)) else [ast.copy_location(ast.Return(value=None), st)]
                 repl = pre + new_body + tail or [ast.copy_location(ast.Pass(), st)]
                 for s_ in repl:
                     # positions: the statements now stand where the call stood (rules that compare positions, and the reports, see the call site)
